@@ -34,6 +34,9 @@ extern long nondet_long(void);
 extern double nondet_double(void);
 extern void __CPROVER_assume(_Bool);
 extern void __CPROVER_assert(_Bool, const char *);
+#ifdef VF_LROUTE
+extern unsigned long __CPROVER_OBJECT_SIZE(const void *);	/* CBMC builtin; declared for clang only */
+#endif
 long vf_tape_l[VF_TAPE_L];
 double vf_tape_d[VF_TAPE_D];
 #define VF_L(slot)        (vf_tape_l[slot] = nondet_long())
